@@ -326,7 +326,7 @@ def run_parallel(ctx: Ctx, drv: Optional[Driver]) -> None:
     # bounded window of outstanding batches: the workers prepare faster than the parent judges, and an
     # unbounded imap queue once grew to 43 GB (the parent was OOM-killed)
     from collections import deque
-    with mp.get_context('fork').Pool(nproc, maxtasksperchild=50) as pool:
+    with mp.get_context('fork').Pool(nproc) as pool:
         pending: deque = deque()
         it = iter(jobs)
         done = 0
